@@ -69,6 +69,16 @@ def step (s : St) (line : String) : St × String :=
       let before := s.full.store
       let (n', ws) := if o.verb = "hdr" then Sync.onHeader s.full b.sh else Sync.onData s.full b.data
       ({ s with full := n', before := before, ws := ws }, observe n' ws false)
+  | "junkdat" =>
+    -- unauthenticated P2P data: the genuine metadata of block `h`, other transactions
+    if !s.ok then (s, "dead") else
+    match s.prod.store.getBlock (o.nat "h") with
+    | none => (s, "no-such-block")
+    | some b =>
+      if o.nat "h" > s.prod.store.height then (s, "no-such-block") else
+      let before := s.full.store
+      let (n', ws) := Sync.onData s.full { b.data with txs := o.list "txs" }
+      ({ s with full := n', before := before, ws := ws }, observe n' ws false)
   | "restart" =>
     if !s.ok then (s, "dead") else
     startFull s s.full.store { hdrCache := s.full.hdrCache, datCache := s.full.datCache, seenH := s.full.seenH, seenD := s.full.seenD }
